@@ -1598,6 +1598,9 @@ func (this *Reader) Read(block []byte) (int, error) {
 			var err error
 
 			if this.available, err = this.processBlock(); err != nil {
+				// Do not serve partially decoded data or blocks beyond the failure
+				this.available = 0
+				atomic.StoreInt32(&this.blockID, _CANCEL_TASKS_ID)
 				return len(block) - remaining, err
 			}
 
